@@ -5,8 +5,8 @@
 //
 // Process structure.  The engine proper (`h-conc run`, the supervisor) starts a WORKER
 // process (`h-conc[-race] worker`, replaced after a hang or crash; every case starts on a fresh
-// node) and talks to it over pipes, one op line at a time.  That isolates what C20 is about: a deadlocked case is killed by the supervisor's
-// watchdog (10 s per op; SIGQUIT first, so the goroutine dump is captured), a fatal runtime
+// node) and talks to it over pipes, one op line at a time.  That isolates what C20 is about: a deadlocked `run` is detected by the worker's
+// no-progress watchdog (3 s, goroutine dump captured; the supervisor has a wall-clock backstop), a fatal runtime
 // error (concurrent map access) or an unrecovered panic only kills the worker, and data-race
 // reports written by the race runtime to the worker's stderr are read by the supervisor and
 // turned into `ORACLE FAIL C20 data-race …` lines, so that they are shrunk and replayed like
@@ -56,7 +56,14 @@ import (
 )
 
 const (
-	opTimeout  = 10 * time.Second
+	// Watchdogs.  The one that decides is inside the worker: a `run` in which no goroutine
+	// completes an operation during 30 consecutive 100 ms ticks of the worker's own monitor
+	// goroutine (3 s of the worker actually running - robust against a loaded machine, where
+	// the monitor is starved along with everything else) is a hang.  The supervisor's wall
+	// clock timeouts are only backstops for a worker that does not even get that far.
+	opTimeout    = 120 * time.Second
+	startTimeout = 300 * time.Second
+	maxLost    = 3
 	pikoModule = "github.com/andydunstall/piko"
 )
 
@@ -66,6 +73,7 @@ type supervisor struct {
 	w       *workerProc
 	dead    bool // the worker of this case hung or crashed
 	fresh   bool // the next op is the first of a case: the worker drops its node first
+	lost    int  // workers lost to a hang or crash so far in this process
 	binary  string
 	binNote string
 }
@@ -221,6 +229,19 @@ func (e *supervisor) start() error {
 			}
 		}
 	}()
+	// a -race binary needs seconds to start (more on a loaded machine): not part of any op
+	select {
+	case l, ok := <-w.lines:
+		if !ok || l != "READY" {
+			_ = cmd.Process.Kill()
+			go func() { _ = cmd.Wait() }()
+			return fmt.Errorf("worker did not start: %q %s", l, oneLine(w.stderrText(), 300))
+		}
+	case <-time.After(startTimeout):
+		_ = cmd.Process.Kill()
+		go func() { _ = cmd.Wait() }()
+		return fmt.Errorf("worker did not start within %s", startTimeout)
+	}
 	e.w = w
 	return nil
 }
@@ -354,6 +375,12 @@ func (e *supervisor) Step(ws []string, o *Out) string {
 	if e.dead {
 		return "dead"
 	}
+	if e.lost >= maxLost {
+		// the failure is established (and reported) several times over: do not spend
+		// 2 s + a -race process start on every remaining case of this shard
+		o.Count("ops:not-run-after-repeated-hangs-or-crashes")
+		return "dead"
+	}
 	if e.w == nil {
 		if err := e.start(); err != nil {
 			o.Fail("C20", "harness-cannot-start-worker", oneLine(err.Error(), 200))
@@ -414,6 +441,7 @@ func (e *supervisor) Step(ws []string, o *Out) string {
 					go func() { _ = w.cmd.Wait() }()
 					o.Count("hangs")
 					e.w, e.dead = nil, true
+					e.lost++
 				}
 				return l[2:]
 			}
@@ -434,6 +462,7 @@ func (e *supervisor) Step(ws []string, o *Out) string {
 			o.Fail("C20", "deadlock-or-hang", "op `"+ws[0]+"` did not complete in "+opTimeout.String()+": "+oneLine(blockedSummary(seg), 900))
 			o.Count("hangs")
 			e.w, e.dead = nil, true
+			e.lost++
 			return "hang"
 		}
 	}
@@ -465,6 +494,7 @@ func (e *supervisor) crashed(o *Out, why string) string {
 	o.Fail("C20", "crash", oneLine(why+": "+msg+" "+strings.Join(frames, " <- "), 600))
 	o.Count("crashes")
 	e.w, e.dead = nil, true
+	e.lost++
 	return "crash"
 }
 
@@ -612,6 +642,8 @@ func WorkerMain() {
 	sc := bufio.NewScanner(os.Stdin)
 	sc.Buffer(make([]byte, 1<<20), 1<<26)
 	var n *node
+	fmt.Fprintln(out.w, "READY")
+	_ = out.w.Flush()
 	for sc.Scan() {
 		ws := strings.Fields(sc.Text())
 		if len(ws) < 2 {
@@ -1047,9 +1079,9 @@ func (n *node) run(seed int64, G, nops int, out *wout) string {
 		}(i, j)
 	}
 	close(start)
-	// per-operation watchdog: every goroutine bumps n.prog once per operation; 20 consecutive
+	// per-operation watchdog: every goroutine bumps n.prog once per operation; 30 consecutive
 	// 100 ms ticks of this goroutine without any progress while goroutines are still running
-	// = some operation did not complete in 2 s of process run time.
+	// = some operation did not complete in 3 s of process run time.
 	done := make(chan struct{})
 	go func() { wg.Wait(); close(done) }()
 	last, idle := int64(-1), 0
@@ -1062,11 +1094,11 @@ wait:
 		}
 		if cur := n.prog.Load(); cur != last {
 			last, idle = cur, 0
-		} else if idle++; idle >= 20 {
+		} else if idle++; idle >= 30 {
 			buf := make([]byte, 1<<22)
 			buf = buf[:runtime.Stack(buf, true)]
 			_, _ = os.Stderr.Write(buf)
-			out.fail("C20", "deadlock-or-hang", "no operation completed for 2 s with goroutines still running: "+oneLine(blockedSummary(string(buf)), 1200))
+			out.fail("C20", "deadlock-or-hang", "no operation completed for 3 s with goroutines still running: "+oneLine(blockedSummary(string(buf)), 1200))
 			n.hung = true
 			return "hang"
 		}
